@@ -43,6 +43,7 @@ var paths = []pathT{
 const guard = 24
 
 func run(c *vf.Ctx) {
+	c.RaceCompanion("the key-stream functions", "golang.org/x/crypto/salsa20/salsa.", "golang.org/x/crypto/salsa20.")
 	c.Rule("full grid path{salsa.XORKeyStream(asm on amd64), genericXORKeyStream} x start-counter{0,1,2^(8k)-3..2^(8k) k=1..7, 2^32-9..2^32+1, 2^64-9..2^64-1 (wrap), seeded} " +
 		"x every length 0..L plus 2000,4096 x {disjoint,in==out} x key/nonce/data value classes; one-hot sweep over all 384 key+counter bits; " +
 		"long inputs 2^k+{-1,0,1,63,64,65} k=16..22 (24 thorough) x both paths x {disjoint,in==out} x 13 starts incl. carries/wrap 2^j blocks deep inside the call; " +
